@@ -551,11 +551,15 @@ def flux_sweep_job(job: dict) -> dict:
         if job.get("workers"):
             dkw["num_workers"] = job["workers"]
     traces, err = [], ""
+    user_before = snapshot_user(det, pipe, obs_)
+    user_after = None
     try:
         with dask.config.set(**dkw):
             dt = pyxel.run_mode(obs_, det, pipe, with_inherited_coords=True)
             if job.get("dask"):
                 dt = dt.compute()
+        # the caller's detector, pipeline and readout after the sweep (C06: untouched by the runs)
+        user_after = snapshot_user(det, pipe, obs_)
         ds = dt["/bucket"].to_dataset()
         for i, b in enumerate(bases):
             for j, t in enumerate(tlist):
@@ -587,4 +591,4 @@ def flux_sweep_job(job: dict) -> dict:
     except Exception:
         import traceback
         err = traceback.format_exc()[-600:]
-    return {"traces": traces, "error": err, "job": job}
+    return {"traces": traces, "error": err, "job": job, "user_before": user_before, "user_after": user_after}
